@@ -168,6 +168,16 @@ def run(res, ctx):
     if bindir is None:
         res.violation("broken-correspondence", "CLI binaries do not build", {"theorem_or_projection": "CLI build", "log": blog[-1500:]}, found_input=False)
     else:
+        # fixed corpus: every accepted spelling of an opening position on a file that uses it
+        simple = b"security,trade date,settlement date,action,shares,amount/share\nFOO,2020-01-02,2020-01-04,Sell,2,5\nFOO,2020-02-02,2020-02-04,Buy,1,5\n"
+        for spec in ("FOO:10:100", " FOO:10:100", "FOO :10:100", "\tFOO:10:100", "FOO:10:100 ", "FOO: 10:100", "FOO:10: 100", "foo:10:100"):
+            for extra in ([], ["--total-costs"], ["--summarize-before", "2021-01-01"]):
+                status, info, argv = run_cli(bindir, "acb", ["-b", spec] + extra, [("in.csv", simple)], 0)
+                st["evaluations"] += 1
+                st["cli-corpus-" + status] += 1
+                if status in ("panic", "timeout"):
+                    res.violation("failing-input", "acb -b %r %s: %s %s" % (spec, " ".join(extra), status, info[:300]),
+                                  {"args": ["-b", spec] + extra, "input": simple.decode(), "actual_impl": info})
         nb = 150 if tier == "quick" else 3000
         for k in range(nb):
             c = gen.gen_case(rng, p_invalid=0.1)
